@@ -233,6 +233,12 @@ func (c *Ctx) havocCall(st *State, fr *Frame, tgt callTarget, pos token.Pos) Val
 
 func (c *Ctx) havocKey(st *State, key string) {
 	info, ok := c.V.heapKeys[key]
+	if !ok && strings.HasPrefix(key, "G_") {
+		if g, isG := c.V.specs.Ghosts[key[2:]]; isG {
+			c.heapHavoc(st, key, c.V.sortOfTypeName(g.Type))
+		}
+		return
+	}
 	if !ok {
 		switch key {
 		case chLen, chVal:
@@ -409,7 +415,12 @@ func (c *Ctx) havocLoc(st *State, old *State, fr *Frame, env *Env, m ModLoc, tgt
 		fi := fis[len(fis)-1]
 		h := c.heapCur(st, fi.Key, arrSort(fi.Sort))
 		fv := c.fresh("mod_"+fi.Key, fi.Sort)
-		st.heap[fi.Key] = sto(h, ref, fv)
+		// a nil reference has no fields: nothing is modified then
+		if ref.S == "0" {
+			return
+		}
+		nh := c.heapHavoc(st, fi.Key, h.Sort)
+		st.assume(eq(nh, ite(eq(ref, tZero), h, sto(h, ref, fv))))
 	case EIdent:
 		if e.Name == "everything" {
 			c.havocAll(st)
